@@ -5,8 +5,8 @@ import time
 
 from . import common as C
 
-QUICK = ["K1", "K2", "K4", "K5", "K6", "K7", "K8", "K9", "K14", "K16", "K17", "K19", "K20", "K21", "K22", "K23", "K24"]
-ALL = ["K1", "K2", "K3", "K4", "K5", "K6", "K7", "K8", "K9", "K10", "K11", "K12", "K13", "K14", "K15", "K16", "K17", "K18", "K19", "K20", "K21", "K22", "K23", "K24"]
+QUICK = ["K1", "K2", "K4", "K5", "K6", "K7", "K8", "K9", "K14", "K16", "K17", "K19", "K20", "K21", "K22", "K23", "K24", "K25", "K26", "K27"]
+ALL = ["K1", "K2", "K3", "K4", "K5", "K6", "K7", "K8", "K9", "K10", "K11", "K12", "K13", "K14", "K15", "K16", "K17", "K18", "K19", "K20", "K21", "K22", "K23", "K24", "K25", "K26", "K27"]
 
 ASSUMPTIONS = [
     "value domain {0, 1, 200} per object ({0.0, -0.0, 1.0} for float), span lengths <= 2 (thorough: <= 3), fixed sizes {1, 2}",
